@@ -75,7 +75,7 @@ pub fn prf_byte(key: u64, i: u64) -> u8 {
 
 pub fn prf_fill(key: u64, off: u64, out: &mut [u8]) {
     for (k, b) in out.iter_mut().enumerate() {
-        *b = prf_byte(key, off + k as u64);
+        *b = prf_byte(key, off.wrapping_add(k as u64));
     }
 }
 
@@ -83,7 +83,7 @@ pub fn prf_fill(key: u64, off: u64, out: &mut [u8]) {
 pub fn prf_mismatch(key: u64, off: u64, data: &[u8]) -> Option<usize> {
     data.iter()
         .enumerate()
-        .find(|(k, b)| **b != prf_byte(key, off + *k as u64))
+        .find(|(k, b)| **b != prf_byte(key, off.wrapping_add(*k as u64)))
         .map(|(k, _)| k)
 }
 
